@@ -72,7 +72,7 @@ def indirect(rng, value, helpers):
 
 
 def main():
-    chk = Check('C15')
+    chk = Check('C15', extra_modules=['Bardolph.Proofs.SemSteps'])
     chk.lean_phase(sections=set())
     rng = chk.rng
     stats = {'zone_cases': 0, 'matrix_cases': 0, 'stages': 0, 'modes': {}, 'sizes': set(),
